@@ -503,7 +503,9 @@ class IndexReader(object):
                 yield (vec.id(), vec.weight())
                 vec.next()
         else:
-            format_ = self.schema[fieldname].format
+            # Vector values are encoded with the field's *vector* format, which
+            # can differ from its posting format
+            format_ = self.schema[fieldname].vector
             decoder = format_.decoder(astype)
             while vec.is_active():
                 yield (vec.id(), decoder(vec.value()))
